@@ -153,10 +153,12 @@ class Splitter:
             if next_mark.group(0) == '"' and not num_open_curls > 0:
                 currently_quote_escaped = not currently_quote_escaped
                 continue
-            elif next_mark.group(0) == "{" and not currently_quote_escaped:
+            elif next_mark.group(0) == "{":
+                # Braces nest inside quoted values as well, such that
+                #   a quote within braces does not end the quoted value (`"a {"} b"`)
                 num_open_curls += 1
                 continue
-            elif next_mark.group(0) == "}" and not currently_quote_escaped and num_open_curls > 0:
+            elif next_mark.group(0) == "}" and num_open_curls > 0:
                 num_open_curls -= 1
                 continue
 
